@@ -200,6 +200,9 @@ class Forker:
         t0 = time.time()
         self.solver.push(); self.solver.add(c)
         r = self.solver.check()
+        if r == z3.unknown:
+            # one retry in a fresh solver with a long time-out before the path is given up as undecided
+            s2 = z3.Solver(); s2.set("timeout", 60000); s2.add(self.solver.assertions()); r = s2.check()
         self.solver.pop()
         dt = time.time() - t0; self.solver_s += dt
         if self.stats is not None:
